@@ -5,7 +5,7 @@ numeric literals of range checks); control flow is modelled by hand in coq/Model
 coq/Model/Rfc3339.v.  Anything that cannot be located fails loudly (broken tie)."""
 import re
 
-from rustconst import Evaluator, TranslateError, array_elems, find_items, fn_body, split_top
+from rustconst import Evaluator, TranslateError, array_elems, find_items, fn_body, split_top, strip_comments
 from translate import HEADER, defn, read, zlist, zlit
 
 
@@ -79,8 +79,15 @@ def weekday_discriminants():
     return d
 
 
-def scale_table(body, what):
-    m = re.search(r'static\s+SCALE\s*:\s*\[i64;\s*(\d+)\]\s*=\s*(\[[^\]]*\])', body, re.S)
+def scale_table(body, what, file_src=None):
+    # the table the function indexes (`* NAME[..]`): a `static`/`const` array local to the function
+    # or, failing that, an item of the same name at module level (any name)
+    decl = r'(?:static|const)\s+%s\s*:\s*&?\[i64;\s*(\d+)\]\s*=\s*&?(\[[^\]]*\])'
+    m = re.search(decl % r'[A-Z][A-Z0-9_]*', body, re.S)
+    if not m and file_src is not None:
+        u = re.search(r'\b([A-Z][A-Z0-9_]*)\s*\[', body)
+        if u:
+            m = re.search(decl % re.escape(u.group(1)), strip_comments(file_src), re.S)
     if not m:
         raise TranslateError('%s: SCALE table not found' % what)
     vals = [Evaluator({}).eval(e) for e in array_elems(m.group(2))]
@@ -106,13 +113,13 @@ def gen_scan_tables():
     # --- nanosecond / nanosecond_fixed
     b = fn_body(scan, 'nanosecond')
     out += '(* scan::nanosecond *)\n'
-    out += zlist('SCALE', scale_table(b, 'nanosecond'))
+    out += zlist('SCALE', scale_table(b, 'nanosecond', scan))
     m = re.search(r'number\(s,\s*(\d+),\s*(\d+)\)', b)
     if not m:
         raise TranslateError('nanosecond: number(s, min, max) call not found')
     out += defn('NANOSECOND_MIN_DIGITS', int(m.group(1))) + defn('NANOSECOND_MAX_DIGITS', int(m.group(2)))
     out += '(* scan::nanosecond_fixed *)\n'
-    out += zlist('SCALE_FIXED', scale_table(fn_body(scan, 'nanosecond_fixed'), 'nanosecond_fixed'))
+    out += zlist('SCALE_FIXED', scale_table(fn_body(scan, 'nanosecond_fixed'), 'nanosecond_fixed', scan))
 
     # --- short_month0 / short_weekday
     wd = weekday_discriminants()
